@@ -108,6 +108,8 @@ func runC16(cx *Ctx, r *Report) {
 	cx.paramDivisions(r)
 	// ---------------- (5) constant indexing into a params-derived slice
 	cx.paramIndexing(r)
+	// ---------------- (6) fee − tax cannot go negative
+	cx.feeTaxBounded(r)
 	r.requireCount("authority-guard", 5)
 	r.requireCount("validated-writer", 5)
 	cx.rateBounds(r)
@@ -997,4 +999,51 @@ func derivesOnlyFromParam(v ssa.Value) bool {
 		}
 	}
 	return false
+}
+
+// feeTaxBounded: where a fee is split as tax + burn(fee − tax), Coin.Sub aborts the
+// handler if tax > fee. The tax is therefore exactly ⌊fee.Amount · rate⌋ for a rate
+// parameter (validated into [0,1]) - no floor, minimum or alternative value that the
+// fee does not bound. Under an accepted fee of 0 (farm accepts it) a "minimum tax of
+// one unit" makes every pool creation panic.
+func (cx *Ctx) feeTaxBounded(r *Report) {
+	n := 0
+	seen := map[string]bool{}
+	for _, m := range []string{"coinswap", "farm", "token"} {
+		cx.forEachEvent(cx.entriesOfModule(m, "msg"), nil, func(e *Entry, w *Walker, ev *Event) {
+			if ev.Kind != "bank.BurnCoins" {
+				return
+			}
+			sub := findSub(ev.Args[len(ev.Args)-1], func(t *Term) bool {
+				return t.Op == "call" && (t.Name == "sdk.Coin.Sub" || t.Name == "sdk.Coins.Sub") && len(t.Args) == 2
+			})
+			if sub == nil {
+				return
+			}
+			pos := ev.Pos(cx)
+			if seen[pos] {
+				return
+			}
+			seen[pos] = true
+			n++
+			fee, tax := sub.Args[0], sub.Args[1]
+			ts := tax.LooseString()
+			amt := tax
+			if tax.Op == "call" && (tax.Name == "coin" || tax.Name == "coins") && len(tax.Args) >= 1 {
+				amt = tax.Args[len(tax.Args)-1]
+				if amt.Op == "call" && amt.Name == "coin" && len(amt.Args) == 2 {
+					amt = amt.Args[1]
+				}
+			}
+			feeAmt := simplifyField(fee, "Amount").LooseString()
+			if fee.Op == "call" && fee.Name == "coins" && len(fee.Args) == 1 {
+				feeAmt = simplifyField(fee.Args[0], "Amount").LooseString()
+			}
+			ok := amt.Op == "call" && strings.HasSuffix(amt.Name, "TruncateInt") && strings.Contains(amt.LooseString(), "Mul(") && strings.Contains(amt.LooseString(), feeAmt) && !strings.Contains(ts, "φ{")
+			r.check(ok, "fee-tax-bounded", m+"|"+shortFn(ev.Fr.Fn), pos, "the tax subtracted from the fee is ⌊fee·rate⌋ and nothing else ("+trunc(ts, 120)+")", "in "+shortFn(ev.Fr.Fn)+" the amount subtracted from the fee before burning is "+trunc(ts, 200)+", not simply ⌊fee·rate⌋: it can exceed the fee (a zero or tiny fee passes validation), and Coin.Sub then aborts the handler with a negative amount")
+		})
+	}
+	if n < 3 {
+		r.toolErr("only %d fee−tax burns found (coinswap, farm, token confirmed)", n)
+	}
 }
